@@ -733,3 +733,17 @@ func findFuncAnyRecv(p *packages.Package, name string) *ast.FuncDecl {
 	}
 	return found
 }
+
+// sortedPkgs: every loaded package, in path order (deterministic iteration).
+func (r *Run) sortedPkgs() []*packages.Package {
+	ps := make([]string, 0, len(r.ByPath))
+	for p := range r.ByPath {
+		ps = append(ps, p)
+	}
+	sort.Strings(ps)
+	out := make([]*packages.Package, 0, len(ps))
+	for _, p := range ps {
+		out = append(out, r.ByPath[p])
+	}
+	return out
+}
